@@ -184,7 +184,7 @@ def worker(args):
                         first = ln[:150]
                         break
             if code == 1:
-                verdict = "bounded" if any(t in first for t in (".bounded", "exact-kernel", ".stat.", ".smoke", "bounded[")) else "deductive"
+                verdict = "bounded" if any(t in first for t in (".bounded", "exact-kernel", ".stat.", ".smoke", "bounded[", "native-exception")) else "deductive"
             elif code == 0:
                 verdict = "survived"
             else:
